@@ -57,7 +57,7 @@ def _container(draw, thresholds, min_n=0, max_n=60, positive=False):
         # every other channel of a sample has twice the range (see _materialise): move its top values along
         cells = [[(v + R if (j % 2 == 1 and v in (R - 2, R - 1)) else v) for j, v in enumerate(row)] for row in cells]
     names = draw(st.lists(st.sampled_from([n for n in NAME_POOL if n != 'Time']), min_size=D, max_size=D, unique=True))
-    return dict(kind=kind, D=D, R=R, cells=cells, names=names,
+    return dict(kind=kind, D=D, R=R, cells=cells, names=names, via=draw(st.sampled_from([None, None, None, 'handle'])),
                 derived=draw(st.sampled_from([None, None, None, ['slice', 1], ['list', 2], ['perm', 1], ['permname', 2]])))
 
 
@@ -70,7 +70,8 @@ def _materialise(c):
         return np.array(cells, dtype=np.int64).reshape((len(cells), D)), None
     spec = dict(version='FCS3.0', datatype='I' if kind == 'sample_i' else 'D', byteord='1,2,3,4',
                 widths=[16 if kind == 'sample_i' else 64] * D, ranges=[R * (1 + j % 2) for j in range(D)],
-                names=c['names'], events=cells, pne=['0,0'] * D)          # every other channel has twice the range
+                names=c['names'], events=cells, pne=['0,0'] * D,          # every other channel has twice the range
+                load_via=c.get('via'))
     d = build(spec) if not c.get('derived') else derived_from_used_parent(spec, c['derived'][1], c['derived'][0])
     return d, [[0.0, R * (1 + j % 2) - 1.0] for j in range(D)]
 
